@@ -48,6 +48,7 @@ def applyEv (M : Nat) (v : List Nat) : Ev → List Nat × Option Err
   incr := fun c es => es = c.map Ev.push
   inheritDone := false
   good := fun _ => True
+  idle := fun | .extend [] => true | _ => false
 
 theorem feed_pushes (M : Nat) (xs : List Nat) : ∀ (v : List Nat), (v ++ xs).length ≤ M →
     feedWith (applyEv M) v (xs.map Ev.push) = (v ++ xs, none) := by
